@@ -71,6 +71,7 @@ type fop struct {
 	FeeD   string   `json:"feed,omitempty"`  // params: pool creation fee denom
 	Tax    string   `json:"tax,omitempty"`   // params: tax rate (decimal text)
 	MaxRD  int      `json:"maxrd,omitempty"` // params: max reward categories
+	Spell  int      `json:"spell,omitempty"` // stake/unstake/harvest: the pool id written as farm-0N (1) or as the bare number (2): both pass validation
 	Route  string   `json:"route,omitempty"` // cpool: genesis | handler | refund    // adjust: send the coin lists in descending denom order (VERIF_C05_UNSORTED)
 }
 
@@ -246,6 +247,17 @@ func (m *machine) refundTo(e *chain.Expect, p *mpool, ref map[string]*big.Int) {
 }
 
 func poolID(idx int) string { return fmt.Sprintf("%s-%d", farmtypes.PrefixFarmPool, idx+1) }
+
+// spelledID writes a pool id the way the operation asks for: canonical, with a leading zero, or as the bare number.
+func spelledID(o fop) string {
+	switch o.Spell {
+	case 1:
+		return fmt.Sprintf("%s-0%d", farmtypes.PrefixFarmPool, o.Pool+1)
+	case 2:
+		return fmt.Sprint(o.Pool + 1)
+	}
+	return poolID(o.Pool)
+}
 
 func (m *machine) pool(idx int) *mpool {
 	if idx < 0 || idx >= len(m.pools) {
@@ -547,7 +559,7 @@ func (m *machine) applyStake(o fop) error {
 	bal := m.c.Balance(u.Addr, lpt).BigInt()
 	mustReject := p == nil || !p.started(h) || p.expired(h) || bal.Cmp(amt) < 0
 	before := m.c.Snapshot()
-	res := m.c.Deliver(&farmtypes.MsgStake{PoolId: poolID(o.Pool), Amount: coin(lpt, amt), Sender: u.Addr.String()})
+	res := m.c.Deliver(&farmtypes.MsgStake{PoolId: spelledID(o), Amount: coin(lpt, amt), Sender: u.Addr.String()})
 	if res.Outcome == chain.Panicked {
 		return pbt.Failf(m.sig("stake-panicked"), "%v", res)
 	}
@@ -556,6 +568,10 @@ func (m *machine) applyStake(o fop) error {
 			return pbt.Failf(m.sig("invalid-stake-accepted"), "h=%d %+v", h, o)
 		}
 		m.class("stake-rejected")
+		return nil
+	}
+	if res.Outcome != chain.OK && o.Spell != 0 {
+		m.class("pool-id-in-other-spelling-refused") // fine; an accepted operation acts on the pool it names
 		return nil
 	}
 	if res.Outcome != chain.OK {
@@ -675,7 +691,7 @@ func (m *machine) applyUnstake(o fop) error {
 		}
 	}
 	before := m.c.Snapshot()
-	res := m.c.Deliver(&farmtypes.MsgUnstake{PoolId: poolID(o.Pool), Amount: coin(lpt, amt), Sender: u.Addr.String()})
+	res := m.c.Deliver(&farmtypes.MsgUnstake{PoolId: spelledID(o), Amount: coin(lpt, amt), Sender: u.Addr.String()})
 	if res.Outcome == chain.Panicked {
 		return pbt.Failf(m.sig("unstake-panicked"), "%v", res)
 	}
@@ -684,6 +700,10 @@ func (m *machine) applyUnstake(o fop) error {
 			return pbt.Failf(m.sig("over-unstake-accepted"), "h=%d %+v", h, o)
 		}
 		m.class("unstake-rejected")
+		return nil
+	}
+	if res.Outcome != chain.OK && o.Spell != 0 {
+		m.class("pool-id-in-other-spelling-refused")
 		return nil
 	}
 	if res.Outcome != chain.OK {
@@ -755,7 +775,7 @@ func (m *machine) applyHarvest(o fop) error {
 	h := m.c.Height()
 	mustReject := p == nil || p.expired(h) || !p.farmer(o.Who).exists
 	before := m.c.Snapshot()
-	res := m.c.Deliver(&farmtypes.MsgHarvest{PoolId: poolID(o.Pool), Sender: u.Addr.String()})
+	res := m.c.Deliver(&farmtypes.MsgHarvest{PoolId: spelledID(o), Sender: u.Addr.String()})
 	if res.Outcome == chain.Panicked {
 		return pbt.Failf(m.sig("harvest-panicked"), "%v", res)
 	}
@@ -764,6 +784,10 @@ func (m *machine) applyHarvest(o fop) error {
 			return pbt.Failf(m.sig("invalid-harvest-accepted"), "h=%d %+v", h, o)
 		}
 		m.class("harvest-rejected")
+		return nil
+	}
+	if res.Outcome != chain.OK && o.Spell != 0 {
+		m.class("pool-id-in-other-spelling-refused")
 		return nil
 	}
 	if res.Outcome != chain.OK {
